@@ -67,6 +67,30 @@ Theorem C11_guard_refuted : exists env G hs gs p,
 Proof. exact guard_other_refuted. Qed.
 Print Assumptions C11_guard_refuted.
 
+(* conditions that raise on some nodes (`n.func.id == "f"` asked about a method call): evalx / site_x / invoked_x follow Python's
+   evaluation order and exceptions (None = an exception leaves the evaluation; for site_x: it leaves AstRewriter.visit and nothing
+   is rewritten).  The rewrite is never aborted, whatever the registration order, and every handler runs exactly where the reading
+   "a condition that raises for a node is not satisfied by it" says - so every theorem above applies with env := total envx. *)
+Theorem C11_raising_conditions : forall envx hs p, invoked_x envx hs p = Some (invoked (total envx) hs p).
+Proof. exact invoked_x_total. Qed.
+Print Assumptions C11_raising_conditions.
+Theorem C11_raising_conditions_guarded : forall envx G hs gs p g, invoked_gx envx G hs gs p g = Some (invoked_g (total envx) G hs gs p g).
+Proof. exact invoked_gx_total. Qed.
+Print Assumptions C11_raising_conditions_guarded.
+Theorem C11_raising_evaluation : forall envx p,
+  tot (fst (evalx envx p)) = callp (total envx) p /\ tot (snd (evalx envx p)) = dynp (total envx) p /\ never_raises envx p.
+Proof. exact evalx_total. Qed.
+Print Assumptions C11_raising_evaluation.
+(* non-vacuity: condition 0 raises at the node, condition 1 holds: in either registration order the site is rewritten, the handler
+   of condition 1 runs and the handler of condition 0 does not (before c224119 the order [c0; c1] aborted the rewrite) *)
+Example C11_raising_nonvacuous :
+  let envx := fun c => if N.eqb c 0 then None else Some true in
+  let p0 := PBase false 0 in let p1 := PBase false 1 in
+  evalx envx p0 = (None, None)
+  /\ invoked_x envx [p0; p1] p1 = Some true /\ invoked_x envx [p1; p0] p1 = Some true
+  /\ invoked_x envx [p0; p1] p0 = Some false /\ invoked_x envx [p1; p0] p0 = Some false.
+Proof. vm_compute. repeat split; reflexivity. Qed.
+
 (* non-vacuity: all([static c0, dynamic c1]) next to an unconditional handler: invoked exactly where c0 and c1 hold *)
 Definition ex_p : pred := pall [PBase true 0; PBase false 1].
 Example C11_nonvacuous :
